@@ -872,10 +872,12 @@ class _FunctionInformationCollector(ast.RopeNodeVisitor):
                 self._read_variable(name, node.lineno)
 
     def _Global(self, node):
-        self.globals_.add(*node.names)
+        for name in node.names:
+            self.globals_.add(name)
 
     def _Nonlocal(self, node):
-        self.nonlocals_.add(*node.names)
+        for name in node.names:
+            self.nonlocals_.add(name)
 
     def _AsyncFunctionDef(self, node):
         self._FunctionDef(node)
@@ -1184,7 +1186,8 @@ class _GlobalFinder(ast.RopeNodeVisitor):
         self.globals_ = OrderedSet()
 
     def _Global(self, node):
-        self.globals_.add(*node.names)
+        for name in node.names:
+            self.globals_.add(name)
 
 
 class _NonlocalFinder(ast.RopeNodeVisitor):
@@ -1192,7 +1195,8 @@ class _NonlocalFinder(ast.RopeNodeVisitor):
         self.nonlocals_ = OrderedSet()
 
     def _Nonlocal(self, node):
-        self.nonlocals_.add(*node.names)
+        for name in node.names:
+            self.nonlocals_.add(name)
 
 
 def _get_function_kind(scope):
